@@ -317,9 +317,11 @@ theorem iteScalar_inv {c : LinComb} {t f r : Val} {s s' : St} (hinv : Inv s) (hP
   obtain ⟨le2, _, inv2, gd⟩ := subV_spec inv1 (GoodV.mono le1 _ ht) gf' h2
   obind h with p, s3, h3
   obtain ⟨le3, _, inv3, gp⟩ := mulLV_spec inv2 (hc.mono (le1.trans le2)) gd h3
-  obtain ⟨le4, _, inv4, gr⟩ := addV_spec inv3 (GoodV.mono (le2.trans le3) _ gf') gp h
-  have le := ((le1.trans le2).trans le3).trans le4
-  exact ⟨le, inv4, hP.mono le, gr⟩
+  obind h with ret, s4, h4
+  obtain ⟨le4, _, inv4, gret⟩ := addV_spec inv3 (GoodV.mono (le2.trans le3) _ gf') gp h4
+  obtain ⟨le5, _, inv5, gr⟩ := iteTag_spec inv4 gret h
+  have le := (((le1.trans le2).trans le3).trans le4).trans le5
+  exact ⟨le, inv5, hP.mono le, gr⟩
 
 theorem mergeS_inv {c : LinComb} {t f r : SVal} {n n' : Nat} {s s' : St} (hinv : Inv s) (hP : PrimeP s)
     (hc : Good s c) (ht : GoodS s t) (hf : GoodS s f) (h : mergeS c t f n s = .ok ((r, n'), s')) :
@@ -328,7 +330,7 @@ theorem mergeS_inv {c : LinComb} {t f r : SVal} {n n' : Nat} {s s' : St} (hinv :
   · exact Spec.refl hinv hP ht
   · obtain ⟨le1, inv1, hP1, g1⟩ := iteScalar_inv hinv hP hc ht.toVal hf.toVal hv
     obtain ⟨_, _, hk, _⟩ := iteScalar_rep t.toVal_isS f.toVal_isS hv
-    exact ⟨le1, inv1, hP1, GoodS.ofVal ho g1 (fun l hl => (hk l hl).elim)⟩
+    exact ⟨le1, inv1, hP1, GoodS.ofVal ho g1 hk⟩
 
 mutual
 theorem mergeT_inv {c : LinComb} : ∀ {t f r : TVal} {n n' : Nat} {s s' : St}, Inv s → PrimeP s → Good s c →
@@ -855,7 +857,7 @@ theorem iteVals_inv {c : LinComb} {tv fv r : TVal} {n n' : Nat} {s s' : St} (hin
     simp only [GoodT, PTree.AllP_leaf] at ht hf ⊢
     obtain ⟨le1, inv1, hP1, g1⟩ := iteScalar_inv hinv hP hc ht.toVal hf.toVal h1
     obtain ⟨_, _, hk, _⟩ := iteScalar_rep a.toVal_isS b.toVal_isS h1
-    exact ⟨le1, inv1, hP1, GoodS.ofVal ho g1 (fun l hl => (hk l hl).elim)⟩
+    exact ⟨le1, inv1, hP1, GoodS.ofVal ho g1 hk⟩
   · exact mergeT_inv hinv hP hc ht hf h
 
 theorem iteThunks_inv {env : BEnv} {vals : Vals} {c : LinComb} {t f : BExpr} {n n' : Nat} {r : TVal} {s s' : St} (hinv : Inv s)
